@@ -133,7 +133,7 @@ def gen(tier, seed):
     pool = ['a', 'b', '"', ',', ' ', '\t', '\n', '\r', '#', ';', '|', 'é', '中', '\U0001F600', '\\', "'", '\ufeff']
     for _ in range(3000 if tier == 'quick' else 50000):
         pol = rnd.choice(['quoted', 'quoted_rfc', 'simple', 'whitespace', 'monocolumn'])
-        d = {'whitespace': ' ', 'monocolumn': ''}.get(pol) if pol in ('whitespace', 'monocolumn') else rnd.choice([',', ';', '\t', '|', ' ', '##', ',;', '¦'])
+        d = {'whitespace': ' ', 'monocolumn': ''}.get(pol) if pol in ('whitespace', 'monocolumn') else rnd.choice([',', ';', '\t', '|', ' ', '##', ',;', '¦', ', '])      # (a delimiter must not BEGIN with a space: the pattern's trailing ' *' after a quoted field eats it — outside the dialect, GoodDelim)
         nrows = rnd.randint(0, 4)
         ncols = 1 if pol == 'monocolumn' else rnd.randint(1, 4)
         table = []
